@@ -1,6 +1,8 @@
 """C01 - CFF outlines and advances equal the source with components resolved."""
 import io
 
+import math
+
 from hypothesis import strategies as st
 
 from ufoverif import gen, otread, refmodel as R, spec as S
@@ -114,6 +116,27 @@ def ops_match(a, b, tol):
                 return False
         elif not all(peq(p, q) for p, q in zip(pa, pb)):
             return False
+    return True
+
+
+def _area(poly):
+    return sum(a[0] * b[1] - b[0] * a[1] for a, b in zip(poly, poly[1:])) / 2
+
+
+def geo_match(a, b, tol):
+    """tolerance mode only: the drawn contour lies within the distance a per-coordinate shift of tol can cause of the expected one, and vice versa,
+    with the same orientation when the enclosed area is large enough to have one. (The structural comparison is fragile there: which short lines
+    collapse depends on floating-point noise at the pruning threshold.)"""
+    from ufoverif import geom
+
+    pa, pb = geom.flatten_cycle((a[0], a[1]), 0.02), geom.flatten_cycle((b[0], b[1]), 0.02)
+    d = tol * 1.4143 + 0.06
+    if not geom.within(pa, pb, d)[0] or not geom.within(pb, pa, d)[0]:
+        return False
+    per = sum(math.hypot(q[0] - p_[0], q[1] - p_[1]) for p_, q in zip(pb, pb[1:]))
+    A, B = _area(pa), _area(pb)
+    if min(abs(A), abs(B)) > 2 * d * per + 1 and (A > 0) != (B > 0):
+        return False
     return True
 
 
@@ -271,7 +294,12 @@ def run_case(case, ctx):
                 ecr, rev = exp[i]
                 gc = got[j]
                 cands = R.rotations(ecr) if rev else [ecr]
-                return any(ops_match(R.strip_tail((gc[0], gc[1])), R.strip_tail(R.oplist(cd)), tol) for cd in cands)
+                if any(ops_match(R.strip_tail((gc[0], gc[1])), R.strip_tail(R.oplist(cd)), tol) for cd in cands):
+                    return True
+                if not rounding and tol and geo_match((gc[0], gc[1]), R.oplist(ecr), tol):
+                    ctx.count("tolerance-mode-contours-matched-geometrically")
+                    return True
+                return False
 
             bad = match(len(exp), pred, ordered)
             if bad is not None:
